@@ -433,7 +433,8 @@ def write_evidence(plan, tier, seed, agg, violations, extra=None):
         "runs_timed_out_nothing_claimed": st.get("runs_timed_out", 0),
         "pristine_runs_incomplete": st.get("pristine_incomplete", 0),
         "walker_unavailable_degraded_comparisons": st.get("walker_unavailable", 0),
-        "reach_warnings": reach_warnings(st),
+        "reach_warnings": reach_warnings(st, getattr(plan, "unreached_by_design", ())),
+        "unreached_by_design": sorted(getattr(plan, "unreached_by_design", ())),
     }
     if extra:
         cov.update(extra)
@@ -451,10 +452,10 @@ def write_evidence(plan, tier, seed, agg, violations, extra=None):
     return path
 
 
-def reach_warnings(st):
+def reach_warnings(st, by_design=()):
     out = []
     for group in ("fault", "probe"):
         for k, v in st.get(group, {}).items():
-            if v == 0 and k not in ("OTHER", "foreign-cached"):
+            if v == 0 and k not in ("OTHER",) and f"{group}:{k}" not in by_design:
                 out.append(f"{group}:{k} never fired")
     return out
